@@ -597,7 +597,7 @@ pub fn edge_map<const N: usize>(t: &Value, line: usize, env: &Env, rep: &mut Rep
     let geo = env.geo_map.get(&N).cloned().flatten();
     let mut cage = Cage::new(Map::<Key, Val, N>::new());
     for e in t["s"].as_array().unwrap() {
-        let k = Key::new(e[0].as_u64().unwrap() as u8, e[1].as_u64().unwrap() as u8);
+        let k = Key::new(e[0].as_u64().unwrap() as crate::elem::Cls, e[1].as_u64().unwrap() as u8);
         let v = Val::new(e[2].as_u64().unwrap() as u8);
         cage.m.insert(k, v);
     }
@@ -623,7 +623,7 @@ pub fn edge_set<const N: usize>(t: &Value, line: usize, env: &Env, rep: &mut Rep
     let geo = env.geo_set.get(&N).cloned().flatten();
     let mut cage = Cage::new(Set::<Key, N>::new());
     for e in t["s"].as_array().unwrap() {
-        cage.m.insert(Key::new(e[0].as_u64().unwrap() as u8, e[1].as_u64().unwrap() as u8));
+        cage.m.insert(Key::new(e[0].as_u64().unwrap() as crate::elem::Cls, e[1].as_u64().unwrap() as u8));
     }
     let mut fails = vec![];
     if !state_matches_set(&cage.m, &t["s"]) {
@@ -706,6 +706,7 @@ macro_rules! with_n {
             5 => $f::<5>($($a),*),
             6 => $f::<6>($($a),*),
             8 => $f::<8>($($a),*),
+            300 => $f::<300>($($a),*),
             other => panic!("capacity {other} is not instantiated in the harness"),
         }
     };
